@@ -151,6 +151,32 @@ def gen_volt(rng, tier, out):
         out.append({'kind': 'volt', 'amp': '1', 'off': '0', 'res': res, 'vs': ['0', '1/2']})
 
 
+def gen_volt_tol(rng, tier, out):
+    """tolerance stream: decimal (non-dyadic) amplitudes, offsets and voltages.  The numbers handed to the implementation
+    are the binary64 values of the decimal strings; the model gets exactly those values, so the only inexactness is the
+    rounding of the float operations inside voltage_to_uint16.  Voltages stay 1e-6*amp away from the range ends (the
+    float range test could go either way there); clearly out-of-range values test the rejection."""
+    n = {'quick': 60, 'thorough': 1500}[tier]
+    for k in range(n):
+        amp = rng.choice(['0.3', '0.7', '1.5', '2.3', '0.05', '0.123', '4.7', '1e-3'])
+        off = rng.choice(['0', '0', '0.1', '-0.25', '0.033', '1.7'])
+        res = rng.choice([8, 10, 12, 14, 15, 16])
+        fa, fo = float(amp), float(off)
+        m = rng.randint(1, 14)
+        us = [round(rng.uniform(-0.999, 0.999), rng.choice([1, 2, 3, 6])) for _ in range(m)]
+        if k % 3 == 0:
+            us = sorted(us)                                  # ramps: monotonicity
+        if k % 5 == 0:
+            M = 2 ** res - 1                                 # near half-way points of the code grid
+            us = [((rng.randint(0, M - 1) + 0.5) * 2 / M - 1) * (1 - 1e-9) for _ in range(m)]
+        vs = [fo + fa * u for u in us]
+        if rng.random() < 0.1:
+            vs[rng.randrange(m)] = fo + rng.choice([-1, 1]) * fa * 1.01      # malformed: clearly outside
+        vs = [v for v in vs if abs(abs(F(v) - F(fo)) - F(fa)) > F(fa) / 10 ** 6]
+        out.append({'kind': 'volt_tol', 'amp': fs(F(fa)), 'off': fs(F(fo)), 'res': res, 'vs': [fs(F(v)) for v in vs],
+                    'decimal': [amp, off]})
+
+
 def gen_mono(rng, tier, out):
     n = {'quick': 1, 'thorough': 5}[tier]
     for xs in ([], [1], [1, 1], [1, 2], [2, 1], [0, 0, 0], [0, 1, 1, 2], [0, 2, 1, 3], [3, 2, 1], [0, 1, 2, 1],
@@ -392,6 +418,7 @@ def gen_sample(rng, tier, out):
 def gen_cases(rng, tier, ctx):
     out = []
     gen_volt(rng, tier, out)
+    gen_volt_tol(rng, tier, out)
     gen_mono(rng, tier, out)
     gen_win(rng, tier, out)
     gen_shrink(rng, tier, out)
@@ -467,7 +494,7 @@ def run_impl(case):
     from qupulse.utils import performance as P
     from qupulse.hardware import util as U
     k = case['kind']
-    if k == 'volt':
+    if k in ('volt', 'volt_tol'):
         amp, off, res = _fl(case['amp']), _fl(case['off']), case['res']
         vs = [_fl(v) for v in case['vs']]
 
@@ -662,13 +689,13 @@ def to_coq(case, obs):
     k = case['kind']
     if _bad(obs):
         return 'CCrash'
-    if k in ('volt', 'mono', 'win', 'shrink', 'avg'):
+    if k in ('volt', 'volt_tol', 'mono', 'win', 'shrink', 'avg'):
         if any(_bad(obs[v]) for v in ('np', 'loop', 'pub')):
             return 'CCrash'
     three = lambda p: ' '.join(p(obs[v]) for v in ('np', 'loop', 'pub'))
-    if k == 'volt':
-        return '(CVolt %s %s %s %s %s)' % (gQs(case['amp']), gQs(case['off']), gZ(case['res']), glist(gQs, case['vs']),
-                                           three(lambda o: g_out(o, lambda r: glist(gZ, r))))
+    if k in ('volt', 'volt_tol'):
+        return '(%s %s %s %s %s %s)' % ('CVolt' if k == 'volt' else 'CVoltTol', gQs(case['amp']), gQs(case['off']), gZ(case['res']),
+                                              glist(gQs, case['vs']), three(lambda o: g_out(o, lambda r: glist(gZ, r))))
     if k == 'mono':
         if any('err' in obs[v] for v in ('np', 'loop', 'pub')):
             return 'CCrash'
@@ -755,6 +782,29 @@ def py_volt(case, o):
     return None
 
 
+VOLT_TOL = F(1, 2 ** 30)
+
+
+def py_volt_tol(case, o):
+    amp, off, res = F(case['amp']), F(case['off']), case['res']
+    vs = [F(v) for v in case['vs']]
+    if any(abs(v - off) > amp for v in vs):
+        return None if 'err' in o else 'a voltage clearly outside offset +- amplitude was accepted'
+    if 'err' in o:
+        return 'in-range voltages rejected'
+    M = 2 ** res - 1
+    if len(o['ret']) != len(vs):
+        return 'number of codes changed'
+    for v, c in zip(vs, o['ret']):
+        y = (v - off + amp) * M / (2 * amp)
+        if not (0 <= c <= M) or abs(c - y) > F(1, 2) + VOLT_TOL:
+            return 'code %d is further than 1/2 + 2^-30 from the exact scaled voltage %s' % (c, float(y))
+    pairs = sorted(zip(vs, o['ret']))
+    if any(a[1] > b[1] for a, b in zip(pairs, pairs[1:])):
+        return 'codes are not monotone in the voltage'
+    return None
+
+
 def py_win(case, o):
     sr = F(case['sr'])
     ws = [(F(b), F(l)) for b, l in case['ws']]
@@ -829,7 +879,7 @@ def _variants_agree(obs):
 
 def py_spec(case, obs):
     k = case['kind']
-    if _bad(obs) or (k in ('volt', 'mono', 'win', 'shrink', 'avg') and any(_bad(obs[v]) for v in ('np', 'loop', 'pub'))):
+    if _bad(obs) or (k in ('volt', 'volt_tol', 'mono', 'win', 'shrink', 'avg') and any(_bad(obs[v]) for v in ('np', 'loop', 'pub'))):
         return 'implementation crashed or hung: %s' % (str(obs)[:300])
     if k == 'volt':
         r = py_volt(case, obs['pub'])
@@ -837,6 +887,12 @@ def py_spec(case, obs):
             return r
         if case['res'] >= 1 and not _variants_agree(obs):
             return 'the internal implementations of voltage_to_uint16 disagree'
+    if k == 'volt_tol':
+        r = py_volt_tol(case, obs['pub'])
+        if r:
+            return r
+        if not _variants_agree(obs):
+            return 'the internal implementations of voltage_to_uint16 disagree (decimal inputs)'
     if k == 'mono':
         xs = [F(x) for x in case['xs']]
         if obs['pub'].get('ret') != all(a <= b for a, b in zip(xs, xs[1:])):
@@ -874,6 +930,8 @@ def nontrivial(case, obs):
     k = case['kind']
     if k == 'volt':
         return len(case['vs']) >= 2
+    if k == 'volt_tol':
+        return False          # tolerance stream: counted apart (histogram key volt_tol), never as an exact non-trivial case
     if k == 'mono':
         return len(case['xs']) >= 3
     if k in ('win', 'shrink'):
@@ -898,7 +956,7 @@ def _avg_windows_sorted(case):
 def histogram_keys(case, obs):
     k = case['kind']
     keys = [k]
-    if k in ('volt', 'shrink'):
+    if k in ('volt', 'volt_tol', 'shrink'):
         keys.append('%s:pub=%s' % (k, 'err' if 'err' in obs.get('pub', {}) else 'ok'))
     if k in ('win', 'shrink'):
         ws = case['ws']
